@@ -40,6 +40,29 @@ func c04(r *Report) {
 			r.Gate(Gate{ID: "C04.guard-skip-only-off-path", Fn: sk, Effect: ReturnsBool(0, true), Check: CallCheck(Fn(h, "", "matchesPath"), -1, IsFalse), Note: "skip ⇔ not under the protected path"})
 		}
 	}
+	// --- (1b) the guard is actually installed: with token auth configured, applyAuthMiddleware succeeds only after
+	// handing the authenticator's Handler to the router; any other auth type is an error; Configure fails if it fails.
+	if apply != nil {
+		tokType, _ := p.ConstValue(h, "BearerTokenAuthV2")
+		tokType = strings.Trim(tokType, "\"")
+		typ := FieldV("AuthConfig", "Type")
+		use := Callee{Desc: "EchoRouter.Use", M: func(cc *ssa.CallCommon) bool { return cc.IsInvoke() && cc.Method.Name() == "Use" }}
+		isTok := CmpCheck("config.Type == BearerTokenAuthV2", token.EQL, typ, StrV(tokType), true)
+		r.MustReach(MustReach{ID: "C04.install.token-middleware-installed", Fn: apply, Cond: isTok, Target: use, SuccessOnly: true,
+			TargetOK: func(ci ssa.CallInstruction) bool {
+				for _, a := range ci.Common().Args {
+					for _, el := range append(VariadicElems(ci), a) {
+						if mc, ok := StripConv(el).(*ssa.MakeClosure); ok && len(mc.Bindings) == 1 && strings.HasPrefix(mc.Fn.Name(), "Handler") &&
+							CallV(AnyOf(Fn(tv2, "", "NewFromFile"), Fn(tv2, "", "New")), 0).M(mc.Bindings[0]) {
+							return true
+						}
+					}
+				}
+				return false
+			}})
+		r.Gate(Gate{ID: "C04.install.no-auth-only-if-unconfigured", Fn: apply, Effect: ConstNilReturn(), Check: CmpCheck("config.Type == \"\"", token.EQL, typ, StrV(""), true), Alt: []Check{isTok}})
+	}
+	r.Gate(Gate{ID: "C04.install.configure-fails-if-auth-fails", Fn: p.Func(h, "Engine", "Configure"), Effect: SuccessReturn(), Check: ErrCheck(Fn(h, "Engine", "applyAuthMiddleware"))})
 	// positive control for the zero-count detector
 	c04Fixture(r)
 
